@@ -27,6 +27,7 @@ claimed = {
  "C23": ("request targets over an alphabet of dot, percent-encoded, backslash, NUL and long-run segments x hosts (for the vhost rewriter) x built-in rewriters with all small counts x default-filesystem mode (os calls substituted by recording wrappers over a per-run real directory tree with bait files outside the root) and fs.FS mode, compression with and without CompressRoot, concurrent requests and disk faults; every recorded path must lie inside Root/CompressRoot, no outside content served, NUL and post-rewrite dot-dot rejected", "6/C23"),
  "C24": ("files of size 0, 1, 100, 8191-8193, 30000 x Range strings from a grammar (valid, open, suffix incl. -0, reversed, multi, garbage, overflow) x Accept-Encoding with gzip/br/zstd x If-Modified-Since before/at/after/garbage x GET and HEAD, short file reads, cache expiry between requests, concurrent compression; independent RFC 9110 range reference, decoded-body equality, HEAD mirrors GET, ParseByteRange invariant", "6/C24"),
  "C25": ("4-12 concurrent FS requests with slow or aborting clients (tiny receive windows), CacheDuration 100 ms-1 s, SkipCache, CleanStop closed at a seeded time, the handler cleanup run as a simulator event; per-handle accounting in the substituted file layer: closed exactly once, never read after close, none open after quiescence", "6/C25"),
+ "C36": ("net/http handler programs (WriteHeader incl. 1xx and repeated calls, Header().Set/Add/Del, Write, Flush, sleeps) and requests with repeated headers and bodies; the reference response comes from a real net/http server run on an in-memory pipe, the simulated side runs NewFastHTTPHandler with handler goroutine, serve goroutine and stream writer interleaved by the scheduler; ConvertRequest compared with net/http parse of the same bytes", "6/C36"),
  "C33": ("PipeConns stream equality and Close semantics, InmemoryListener Dial/Accept/Close pairing, under seeded interleavings of writers, readers, deadlines and closers at every channel/select/mutex operation", "6/C33"),
 }
 na = {
